@@ -605,6 +605,10 @@ pub fn render_section(sec: &Section, si: usize, out: &mut Vec<InLine>) {
     let idx = |m: &str| format!("index {}..{} {}", &"1234567abcdef"[..7], &"89abcde012345"[..7], m).trim_end().to_string();
     match sec.kind {
         SK::PlainDiffU => {
+            // `diff -ru dirA dirB` prints the command in front of every file's section
+            if sec.old_mode == "ru" {
+                push(out, format!("diff -ru {} {}", sec.old_path, sec.new_path), Role::DiffLine { sec: si });
+            }
             // plain `diff -u old new`: no diff line
             push(out, format!("--- {}\t2024-01-02 03:04:05.000000000 +0100", sec.old_path), Role::MinusFile { sec: si });
             push(out, format!("+++ {}\t2024-01-02 03:04:06.000000000 +0100", sec.new_path), Role::PlusFile { sec: si });
@@ -778,10 +782,15 @@ pub fn lines_to_bytes(lines: &[InLine], final_newline: bool) -> Vec<u8> {
 /// a whole plain `diff -u` / `diff -ru` stream
 pub fn gen_plain_case(t: &mut Tape, o: &GenOpts) -> DiffCase {
     let n = t.range(1, o.max_items.min(3).max(1));
+    // output of a recursive diff (`diff -ru a b`): every section starts with a `diff -ru` line
+    let recursive = t.chance(1, 3);
     let mut items = Vec::new();
     for _ in 0..n {
         let mut s = gen_section_of_kind(t, o, SK::Modified);
         s.kind = SK::PlainDiffU;
+        if recursive {
+            s.old_mode = "ru".to_string();
+        }
         let mut p2 = text::path(t, &PathOpts { allow_space: false, ..o.paths });
         if p2 == s.old_path {
             p2 = format!("new_{}", p2);
